@@ -32,6 +32,12 @@ Inductive cstep :=
 | COp (o : op) (ob : obs)
 | CTable (rs : list row) (integrity_ok : bool)    (* whole table in rowid order + PRAGMA integrity_check, read through
                                                      an independent sqlite3 connection *)
+| CConfig (journal_mode synchronous locking_mode isolation_level autocommit : string)
+    (* the configuration of the connection SQLiteStore.make_store() built, read through that connection (after
+       make_store and after every reopen).  The model's Add = one step / AddAborted = no step / Reopen = identity rest on
+       SQLite's atomic commit, i.e. on a rollback journal (or WAL) ON DISK, syncing not switched off, normal locking and a
+       connection on which `with conn:` is a transaction; a store configured otherwise breaks the property's
+       crash-atomicity / durability clause whether or not a kill happens to land badly in this run. *)
 | CAddRaised (b : batch) (rs : list row) (integrity_ok : bool).
     (* add(b) raised (injected fault: progress-handler interrupt, lock held elsewhere, BaseException from a trace's
        serialisation); rs = the table right afterwards.  All of the batch's serialisable rows or none must be there.
@@ -66,8 +72,16 @@ Definition spec_modules_okb (db : list row) (ms : list string) : bool :=
 
 Definition rows_of (bs : list batch) : list row := List.concat (map serialisable bs).
 
+Definition env_okb (journal sync locking isolation autocommit : string) : bool :=
+  mem_str journal ["delete"; "truncate"; "persist"; "wal"]%string         (* not "memory", not "off" *)
+  && mem_str sync ["1"; "2"; "3"]%string                                    (* NORMAL / FULL / EXTRA, not OFF *)
+  && String.eqb locking "normal"
+  && mem_str isolation [""; "DEFERRED"; "IMMEDIATE"; "EXCLUSIVE"]%string    (* "None" = autocommit: no transaction *)
+  && mem_str autocommit ["-1"; "False"]%string.                             (* legacy control or explicit transactions *)
+
 Definition step_verdict (db : list row) (s : cstep) : nat * list row :=
   match s with
+  | CConfig j sy lk iso ac => (if env_okb j sy lk iso ac then 0 else 2, db)
   | CTable rs ok => (if ok && rows_eqb rs db then 0 else 2, db)
   | CAddRaised b rs ok =>
       if negb ok then (2, db)
